@@ -24,7 +24,7 @@ for p in props:
         "evidence_file": f"/verif/evidence/{pid}.json",
         "replay_cmd_template": f"./check {pid} --replay {{path}}",
         "engine": "pgverif",
-        "level_claimed": {"category": "other", "text": meta["level_text"], "design_ref": meta.get("design_ref", f"DESIGN.md section 4, {pid}")},
+        "level_claimed": {"category": "other", "text": meta["level_text"], "design_ref": meta.get("design_ref", f"DESIGN.md section 4 ({pid}) and section 9.2")},
         "level_note": meta["level_note"],
         "technique": meta["technique"],
     })
@@ -49,7 +49,11 @@ manifest = {
     "not_applicable": na,
     "notes": "All checks are static (family: static analysis). Exit 2 + ANALYSIS-ERROR = anchor vanished or construct "
              "outside the understood fragment (fail closed, never a VIOLATION). known_findings.json lists genuine "
-             "defects (known) and repaired ones (fixed).",
+             "defects (known) and repaired ones (fixed). The thorough tier adds the checker self-test: catalogued mutants "
+             "(pgverif/selftest_catalogue) and the stored sub-agent changes (/verif/seeded) are applied to a scratch copy "
+             "of <root>/src under the system temp directory and must be reported; equivalents must stay silent; a miss is "
+             "ANALYSIS-ERROR (exit 2). C20 uses the installed CoolProp fluid table (via /venv/bin/python, no pygaps import) "
+             "as the reference for shipped constants. DESIGN.md section 9 is the as-built description.",
 }
 json.dump(manifest, open(os.path.join(HERE, "MANIFEST.json"), "w"), indent=1)
 print(f"{len(checks)} checks, {len(na)} not applicable")
